@@ -13,7 +13,10 @@ OPERANDS = ["a", "'lit'", "42", "f()", "o.p", "o[k]", "(a)", "('x' + 'y')", "'x'
 ARG_LISTS = ["", "a", "'lit'", "a, b", "f(), b", "...r", "a, ...r", "...r, ...q", "[a, b]", "[[x, y], z]", "a, , b".replace(", ,", ", undefined,"),
              "'l1', 'l2'", "a + b, `t${x}`", "o.p, o[k]", "...'lit'", "(a, b)", "x = y", "a?.b", "() => a + b"]
 ARRAYS = ["[a, b]", "[]", "[a]", "['l1', 'l2']", "[a, , b]", "[...r]", "[a, ...r]", "[[x, y], z]", "[f(), g()]", "[, a]", "arr", "f()", "...r", "[a + b]", "['x' + 'y', a]"]
-RECEIVERS = ["a", "'lit'", "f()", "o.p", "o.prototype", "o[k]", "(a)", "[a, b]", "this", "`t${a}`", "a.trim()", "o.p.q", "new F()", "42", "a?.b", "super.x"]
+RECEIVERS = ["a", "'lit'", "f()", "o.p", "o.prototype", "o[k]", "(a)", "[a, b]", "this", "`t${a}`", "a.trim()", "o.p.q", "new F()", "42", "a?.b", "super.x",
+             # member paths that merely pass through (or start at) something called prototype
+             "Foo.prototype.label", "this.prototype.x.y", "o.constructor.prototype.id", "prototype.name", "o.prototype.prototype", "o.p.prototype",
+             "o[k].prototype.v", "f().prototype.w", "o.call", "o.apply.p", "o.p.call", "a.b.c.d.e", "this.a", "o['prototype'].z", "(o.prototype).y"]
 METHODS = ["trim", "substring", "concat", "replace", "slice", "trimStart", "toUpperCase", "padStart", "call", "apply"]
 THIS_ARGS = ["a", "'lit'", "f()", "o.p", "...r", "undefined", "[a]", "this", "a + b"]
 
@@ -112,7 +115,8 @@ def operations(rng, reserved=None):
         lambda: "%s + %s + %s" % (par(o()), par(o()), par(o())),
         lambda: "%s + (%s + %s)" % (par(o()), par(o()), par(o())),
         lambda: "%s += %s" % (rng.choice(["x", "o.p", "o[k]", "o[i++]", "f().p", "o.p.q", "this.v", "o[a + b]", "o[-k]", "o[+k]", "(o[-k])", "o[`${k}`]", "o[k ? 'a' : 'b']",
-                                           "o[k.p]", "o[typeof k]", "o[!k]", "o[~k]", "o[k - 1]", "o[(k, 1)]", "o[k?.p]", "o.p[-k].q", "o[k][-i]", "o[-1]", "o['lit']", "o[f()].p[g()]"]), o()),
+                                           "o[k.p]", "o[typeof k]", "o[!k]", "o[~k]", "o[k - 1]", "o[(k, 1)]", "o[k?.p]", "o.p[-k].q", "o[k][-i]", "o[-1]", "o['lit']", "o[f()].p[g()]",
+                                           "f()[g(a)]", "o.p[f()]", "g(a)[k + 1]", "f()[o.p]", "o.q.r[g(b)]", "f().p[g(a)]", "(a, o)[f()]", "o[f()][g(a)]"]), o()),
         lambda: "`%s${%s}%s`" % (rng.choice(["", "p"]), o(), rng.choice(["", "q"])),
         lambda: "`${%s}-${%s}`" % (o(), o()),
         lambda: "%s.%s(%s)" % (rpar(rng.choice(RECEIVERS)), rng.choice(METHODS), rng.choice(ARG_LISTS)),
